@@ -56,13 +56,13 @@ CHECKS = {
     "C14": dict(engine="api", ref="4 C14", text="Api.tla models call histories on two Quantizers sharing caller-owned calibration results (value terms, with the set of recipes that wrote into them); TLC checks ArgsUntouched and OutputIsFunction over all interleavings of load/load_config_policy/calibrate/quantize/validate/save/export_model up to the bound (the outcome of the last call that raised is part of the explored state, so continuations after a failed call are explored too); every emitted transition is executed on real objects: after every call all caller-owned objects are compared with deep-equality snapshots, the outcome of every call is compared with the prediction, quantize() bytes are compared with a fresh Quantizer given equal arguments; a sample is re-run in fresh processes under PYTHONHASHSEED 0/1/random.",
                 note="One 4-operator model (FC, TANH, RESHAPE, ADD), 3 recipes chosen so that statistics side effects matter, 2 datasets, <= 2 calibration results, histories to length 4 (quick) / 5 (thorough) on two Quantizers with two policies, 7 / 8 on one Quantizer.",
                 tech="TLA+ model checking (TLC) of Api.tla + transition replay on real objects with snapshots and fresh-object/fresh-process references"),
-    "C16": dict(engine="serialize", ref="4 C16", text="Serialize.tla models the two-pass layout of _serialize_large_model (header of the final pass may shrink when a scalar field becomes default-valued); TLC checks Aligned/InBounds/Disjoint/PointsAtData; quantized models and synthetic layouts are serialised by both paths through the public quantize() (hook lowers the threshold) and the raw (offset,size,total) read with Model.GetRootAs are judged by TLC (ObservedSerialize.tla) together with byte-selection, field-equality and interpreter-equality observations.",
+    "C16": dict(engine="serialize", ref="4 C16", text="Serialize.tla models the two-pass layout of _serialize_large_model (header of the final pass may shrink when a scalar field becomes default-valued); TLC checks Aligned/InBounds/Disjoint/PointsAtData; quantized models and synthetic layouts are serialised by both paths through the public quantize() (hook lowers the threshold) and the raw (offset,size,total) read with Model.GetRootAs are judged by TLC (ObservedSerialize.tla) together with byte-selection, field-equality and interpreter-equality observations; layouts are run with 8-bit and with packed 4-bit weights, and a large path that raises where the ordinary path returns is reported.",
                 note="Needs hook AI_EDGE_QUANTIZER_VERIF_LARGE_MODEL_THRESHOLD. 3-4 buffers, sizes {none,0,1,15,16,17,33}, 32 header residues at design level; 224-640 synthetic layouts + random quantized models observed.",
                 tech="TLA+ model checking (TLC) of Serialize.tla + TLC evaluation of layout invariants on observed (offset,size) tables"),
     "C18": dict(engine="validate", ref="4 C18", text="Validate.tla models the partition of the per-tensor comparison into inputs/outputs/constants/intermediates by successive pops with their KeyError sites; TLC checks PartitionOK and ReturnsForQuantizedPair over all name-set configurations; validate()/compare_model are run on generated models against their quantized versions and against themselves - the float model and the quantized one - (both metrics, every signature, every third case on the reference kernels); TLC (ObservedValidate.tla) judges the observed groups, values are compared with the metric computed from the harness's own two interpreter runs, metric laws on integer vectors.",
                 note="4 names at design level; 160 (quick) / 1500 (thorough) observed comparisons. Value equality is an interpreter observation (1e-5 relative).",
                 tech="TLA+ model checking (TLC) of Validate.tla + TLC evaluation of the partition on observed results"),
-    "C17": dict(engine="quantmath", ref="4 C17", text="QuantMath.tla is an exact-rational reference of the quantisation arithmetic written from the TFLite spec; TLC checks the laws of C17 on it for every grid vector and emits expected values which the library's results must match (zero point exactly, either neighbour on an exact tie; scale within 3e-7); integer results observed from the library (all codes under parameters exactly as the library produces them, ascending inputs, per-channel tensors) are judged by TLC (ObservedMath.tla).",
+    "C17": dict(engine="quantmath", ref="4 C17", text="QuantMath.tla is an exact-rational reference of the quantisation arithmetic written from the TFLite spec; TLC checks the laws of C17 on it for every grid vector and emits expected values which the library's results must match (zero point exactly, either neighbour on an exact tie; scale within 3e-7); integer results observed from the library (all codes under parameters exactly as the library produces them, ascending inputs with outliers for 4, 8 and 16 bits, per-channel tensors) are judged by TLC (ObservedMath.tla).",
                 note="Grids: ranges a/8 x b/8 (a,b <= 16 quick / 48 thorough), one-sided, tiny; bits 4/8/16; both symmetries; all codes for 4/8 bit. numpy float arithmetic trusted in the float-vs-rational comparison.",
                 tech="TLA+ model checking (TLC) of an exact-rational reference + expected-value replay + TLC evaluation of integer laws on observed results"),
 }
